@@ -77,7 +77,7 @@ def cases(tier, seed):
     # alter what is computed)
     if i % 5 == 2:
       p['verbose'] = True
-    out.append({'est': name, 'params': p,
+    out.append({'est': name, 'params': p, 'tight': bool(i % 3 == 1),
                 'ds': {'seed': int(r.randint(2**31 - 1)),
                        'd': int(r.randint(2, 5 if q else 7)),
                        'classes': int(r.randint(2, 4)), 'variant': 'plain',
@@ -93,7 +93,8 @@ def required(tier):
   return {'C14.trace-captured': n, 'C14.psd': n, 'C14.budget': n * 2 // 3,
           'C14.initial-matrix': n, 'C14.trace-follows-scheme': n,
           'C14.result-last-accepted': n, 'C14.diagonal': 10 if q else 120,
-          'C14.first-projection-converges': n}
+          'C14.first-projection-converges': n,
+          'C14.tight-max_proj': n // 4}
 
 
 def _sumsq(A, diffs):
@@ -119,6 +120,36 @@ def _reference_projection_converges(A0, S, t, max_proj, eps=0.01):
     if (w.dot(A.ravel()) - t) / t < eps:
       return True
   return False
+
+
+def _reference_need(A0, S, t, cap, eps=0.01):
+  """Number of alternating projections after which the documented scheme
+  first meets the budget, or None when that number exceeds `cap` or the
+  convergence test is within 1e-6 (relative) of its threshold at the deciding
+  or at the preceding iteration (rounding could then move the count)."""
+  d = A0.shape[0]
+  w = np.zeros((d, d))
+  for v in S:
+    w += np.outer(v, v)
+  w = w.ravel()
+  wn = np.linalg.norm(w)
+  w1, t1 = w / wn, t / wn
+  A = np.array(A0, dtype=float, copy=True)
+  prev = None
+  for it in range(int(cap)):
+    x = A.ravel()
+    if w.dot(x) > t:
+      x = x + (t1 - w1.dot(x)) * w1
+    A = x.reshape(d, d)
+    lam, V = np.linalg.eigh((A + A.T) / 2)
+    A = (V * np.maximum(lam, 0)).dot(V.T)
+    err = (w.dot(A.ravel()) - t) / t
+    if err < eps:
+      clear = abs(err - eps) > 1e-6 * eps and \
+          (prev is None or abs(prev - eps) > 1e-6 * eps)
+      return it + 1 if clear else None
+    prev = err
+  return None
 
 
 def run_case(spec, j):
@@ -261,6 +292,27 @@ def run_case(spec, j):
     j.margin('C14.budget', ssqM / (1.01 * t))
   else:
     j.count('budget.out-of-domain(first-projection-infeasible)')
+  if first_feasible and spec.get('tight'):
+    # "max_proj large enough for one projection to converge", with no slack:
+    # the number of alternating projections the documented scheme needs from
+    # this initial matrix, decided with a margin so that rounding cannot
+    # move it by one
+    need = _reference_need(A0, S, t, 3000)
+    if need is None:
+      j.skip('C14.tight-max_proj', 'need-undecided-or-too-large')
+    else:
+      from sklearn.base import clone
+      e2 = clone(est).set_params(max_iter=1, max_proj=int(need))
+      with api.paused(), Quiet():
+        try:
+          e2.fit(*f.args)
+          M2 = e2.get_mahalanobis_matrix()
+          j.check('C14.tight-max_proj',
+                  _sumsq(M2, S) <= 1.01 * (1 + 1e-9) * t,
+                  dict(det, need=need, sum_sq=_sumsq(M2, S), budget=t))
+        except Exception as e:
+          j.violated('C14.tight-max_proj', dict(det, need=need,
+                                                raised=repr(e)[:200]))
   if n_acc > 0:
     j.distinct(name, repr(sorted(spec['params'].items(), key=repr)),
                spec['ds']['seed'])
